@@ -280,11 +280,11 @@ fn run_par_case(c: &ParCase) -> Result<bool, String> {
 }
 
 fn c19_shard(ctx: &Ctx, out: &mut ShardOut) {
-    drive(ctx, "doc", ctx.shard_seed(1), ctx.share(ctx.by_tier(6000, 200_000)) as u32, doc_strategy(), out, |c| {
+    drive(ctx, "doc", ctx.shard_seed(1), ctx.share(ctx.by_tier(40_000, 600_000)) as u32, doc_strategy(), out, |c| {
         let i = run_doc_case(c).map_err(|m| CaseFail { prop: "C19".into(), msg: format!("[C19] {}", m) })?;
         Ok(CaseInfo { nontrivial: i.repeated_key && i.valid, classes: vec![("documents_repeating_a_key", i.repeated_key as u64), ("documents_well_formed", i.valid as u64), ("documents_malformed_or_ill_typed", (!i.valid) as u64)], evaluations: 1, sub_hashes: vec![] })
     });
-    drive(ctx, "par", ctx.shard_seed(2), ctx.share(ctx.by_tier(600, 20_000)) as u32, par_strategy(), out, |c| {
+    drive(ctx, "par", ctx.shard_seed(2), ctx.share(ctx.by_tier(3000, 40_000)) as u32, par_strategy(), out, |c| {
         let nt = run_par_case(c).map_err(|m| CaseFail { prop: "C19".into(), msg: format!("[C19] {}", m) })?;
         Ok(CaseInfo { nontrivial: nt, classes: vec![("parallel_runs", 1), ("parallel_runs_with_a_key_supplied_more_than_once", nt as u64)], evaluations: 1, sub_hashes: vec![] })
     });
